@@ -59,7 +59,7 @@ def _unquote(s: str) -> str:
 	return re.sub(r'\\(.)', r'\1', body)
 
 
-def run(module: str, cfg: str, *, workers: int | str = 'auto', mode: str = 'bfs', simulate: str = '', depth: int = 0, seed: int | None = None, env: dict | None = None, timeout: int = 600, metadir: str | None = None, coverage: bool = False, deadlock: bool = True, extra: list[str] | None = None, dfs_queue: bool = False, heap: str = '4g', cwd: str | None = None) -> TLCResult:
+def run(module: str, cfg: str, *, _attempt: int = 0, workers: int | str = 'auto', mode: str = 'bfs', simulate: str = '', depth: int = 0, seed: int | None = None, env: dict | None = None, timeout: int = 600, metadir: str | None = None, coverage: bool = False, deadlock: bool = True, extra: list[str] | None = None, dfs_queue: bool = False, heap: str = '4g', cwd: str | None = None) -> TLCResult:
 	"""Run TLC on spec/<module>.tla with spec/<cfg>. Raises TLCFailure on crash/timeout/parse errors."""
 	own_meta = metadir is None
 	if own_meta:
@@ -92,6 +92,10 @@ def run(module: str, cfg: str, *, workers: int | str = 'auto', mode: str = 'bfs'
 	finally:
 		if own_meta:
 			shutil.rmtree(metadir, ignore_errors=True)
+	# a race inside TLC's disk state queue (lazily evaluated function values written by several workers) shows up
+	# once in a while as an internal error: that is the tool, not the model - run again, the last time with one worker
+	if _attempt < 2 and ('Error: when writing the disk' in proc.stdout or '"this.fcnRcd" is null' in proc.stdout):
+		return run(module, cfg, _attempt=_attempt + 1, workers=workers if _attempt == 0 else 1, mode=mode, simulate=simulate, depth=depth, seed=seed, env=env, timeout=timeout, metadir=None, coverage=coverage, deadlock=deadlock, extra=extra, dfs_queue=dfs_queue, heap=heap, cwd=cwd)
 	res = TLCResult(proc.stdout, proc.returncode, time.time() - begin)
 	# rc: 0 ok, 10 assumption, 11 deadlock, 12 safety violation, 13 liveness; >= 75 or 1 errors in spec/tool
 	if proc.returncode not in (0, 10, 11, 12, 13):
